@@ -104,7 +104,7 @@ def denote(seq, labels, parent_list=None, counter=None):
 
 def unroll(nodes, counter=1):
     """-> nested list of (label, children, index): repeats an element with its subtree / a group's list N times in place.
-    A `$` in a label is replaced by the counter of the nearest repeated element or group containing it (itself included),
+    A `$` at the end of a label is replaced by the counter of the nearest repeated element or group containing it (itself included),
     1 when there is none."""
     out = []
     for nd in nodes:
@@ -113,7 +113,8 @@ def unroll(nodes, counter=1):
             if nd.label is None:
                 out += unroll(nd.ch, c)
             else:
-                out.append((nd.label.replace('$', str(c)), unroll(nd.ch, c), nd.index))
+                label = nd.label[:-1] + str(c) if nd.label.endswith('$') else nd.label
+                out.append((label, unroll(nd.ch, c), nd.index))
     return out
 
 
@@ -137,7 +138,10 @@ def split_label(label):
     sc = label.endswith('/')
     if sc:
         label = label[:-1]
-    if label.startswith('.'):
+    for ch in '{[':                      # text / attribute set written on the element
+        if ch in label:
+            label = label[:label.index(ch)]
+    if label.startswith('.') or label.startswith('#'):
         return None, sc
     return label, sc
 
